@@ -2,7 +2,7 @@
    transformers in the generated builtin order -> hash -> name references -> sort -> strip).
    Statements only: every proof is `exact lemma` (lemmas in Res/PipelineProofs.v).
    These theorems extend the coverage of C02, C11, C19, C01 and C07 to whole builds. *)
-From KV Require Import Res.Pipeline Res.PipelineProofs Res.PipelineOrderProofs Res.PipelineFrameProofs Res.PipelineGenProofs.
+From KV Require Import Res.Pipeline Res.PipelineProofs Res.PipelineOrderProofs Res.PipelineFrameProofs Res.PipelineGenProofs Res.PipelinePermProofs.
 From KV Require Res.Generators Res.Hash.
 From KV Require Import Yaml.FieldSpecSpec Yaml.FieldSpecProofs.
 From KV Require Res.Labels Res.Hygiene.
@@ -183,3 +183,21 @@ Theorem PIPE_generated_projection :
               get_kind n = (if Generators.g_secret o then "Secret" else "ConfigMap")%string.
 Proof. exact gen_node_projects. Qed.
 Print Assumptions PIPE_generated_projection.
+
+(* ---------- C11: permuting resources lists (partial) ----------
+   Full statement: permuting the entries of any resources list permutes the output documents of `build`.
+   Proved: for trees without a `namespace:` directive whose generators only create, permuting the entries of
+   resources lists AT ANY DEPTH ([tperm]: entries rewritten recursively, then permuted) permutes the resource map the
+   build holds after accumulation and hash suffixes - whole documents with their rename history, through prefixes,
+   suffixes, labels, annotations, generated ConfigMaps / Secrets (collision checks included: the permuted tree
+   succeeds whenever the original does).
+   Missing: the namespace transformer's id-conflict loop (it compares each visited resource with the not yet
+   visited ones) and the name-reference pass (its candidate lists are in map order); the final legacy sort then
+   makes the output order canonical (C11_legacy_canonical). *)
+Theorem PIPE_permute_multiset_partial :
+  forall nonstr t t' m1,
+    tperm t t' -> perm_ok t ->
+    (do m <- accumulate nonstr t; mapM (hash_res nonstr) m) = Ok m1 ->
+    exists m1', (do m <- accumulate nonstr t'; mapM (hash_res nonstr) m) = Ok m1' /\ Permutation m1 m1'.
+Proof. exact accumulate_hash_perm. Qed.
+Print Assumptions PIPE_permute_multiset_partial.
